@@ -17,7 +17,7 @@ inductive LocIn (x : Loc) (xf : FileId) : FileId → Expr → Prop
   | arg {file l f args a} : a ∈ args → LocIn x xf file a → LocIn x xf file (.fn l f args)
 
 theorem fnArgErrs_loc (file : FileId) (f : Fn) : ∀ (i : Nat) (args : List Expr) (tys : List Ty),
-    ∀ er ∈ fnArgErrs file f i args tys, ∃ a ∈ args, er.l = a.loc ∧ er.file = file
+    ∀ er ∈ fnArgErrs file f i args tys, ∃ a ∈ args, er.l = a.loc ∧ er.file = file ∧ er.notes = []
   | _, [], _, er, h => by simp [fnArgErrs] at h
   | _, _ :: _, [], er, h => by simp [fnArgErrs] at h
   | i, a :: as, t :: ts, er, h => by
@@ -30,7 +30,7 @@ theorem fnArgErrs_loc (file : FileId) (f : Fn) : ∀ (i : Nat) (args : List Expr
 
 theorem bin_errs {file l op a b} {er : Err} (h : er ∈ (tc file (.bin l op a b)).errs) :
     er ∈ (tc file a).errs ∨ er ∈ (tc file b).errs ∨
-      (er.file = file ∧ (er.l = a.loc ∨ er.l = b.loc ∨ er.l = l)) := by
+      (er.file = file ∧ er.notes = [] ∧ (er.l = a.loc ∨ er.l = b.loc ∨ er.l = l)) := by
   simp only [tc] at h
   repeat' split at h
   all_goals simp only [List.mem_append, List.mem_singleton, argErr, err] at h
@@ -38,7 +38,7 @@ theorem bin_errs {file l op a b} {er : Err} (h : er ∈ (tc file (.bin l op a b)
 
 theorem choice_errs {file l c t f} {er : Err} (h : er ∈ (tc file (.choice l c t f)).errs) :
     er ∈ (tc file c).errs ∨ er ∈ (tc file t).errs ∨ er ∈ (tc file f).errs ∨
-      (er.file = file ∧ (er.l = c.loc ∨ er.l = t.loc ∨ er.l = l)) := by
+      (er.file = file ∧ er.notes = [] ∧ (er.l = c.loc ∨ er.l = t.loc ∨ er.l = l)) := by
   simp only [tc] at h
   repeat' split at h
   all_goals simp only [List.mem_append, List.mem_singleton, err] at h
@@ -63,7 +63,7 @@ theorem tc_loc (e : Expr) : ∀ (file : FileId), ∀ er ∈ (tc file e).errs, Lo
     intro file er h; simp only [tc] at h; exact .lvirt (tc_loc d df er h)
   | .bin l op a b => by
     intro file er h
-    rcases bin_errs h with h | h | ⟨hf, h | h | h⟩
+    rcases bin_errs h with h | h | ⟨hf, _, h | h | h⟩
     · exact .binL (tc_loc a file _ h)
     · exact .binR (tc_loc b file _ h)
     · exact .binL (.here h hf)
@@ -71,7 +71,7 @@ theorem tc_loc (e : Expr) : ∀ (file : FileId), ∀ er ∈ (tc file e).errs, Lo
     · exact .here h hf
   | .choice l c t f => by
     intro file er h
-    rcases choice_errs h with h | h | h | ⟨hf, h | h | h⟩
+    rcases choice_errs h with h | h | h | ⟨hf, _, h | h | h⟩
     · exact .chC (tc_loc c file _ h)
     · exact .chT (tc_loc t file _ h)
     · exact .chF (tc_loc f file _ h)
@@ -85,7 +85,7 @@ theorem tc_loc (e : Expr) : ∀ (file : FileId), ∀ er ∈ (tc file e).errs, Lo
     rcases h with (h | h) | h
     · obtain ⟨a, ha, h'⟩ := ih er h
       exact .arg ha h'
-    · obtain ⟨a, ha, h', hf⟩ := fnArgErrs_loc file f 0 args _ er h
+    · obtain ⟨a, ha, h', hf, _⟩ := fnArgErrs_loc file f 0 args _ er h
       exact .arg ha (.here h' hf)
     · split at h
       · simp at h
